@@ -28,6 +28,8 @@ def check_history(case):
     hyp = case["hyp"]
     model = hm.new_model(kind, d, m, noise)
     labels = [f"kind={kind}", f"d={d}", f"m={m}", "d!=m" if d != m else "d==m", "noise:" + ("matrix" if np.ndim(noise) else "scalar")]
+    if case.get("reuse_buffers"):
+        labels.append("caller-reuses-buffers")
     if kind == "list":
         acc = [([], []) for _ in range(m)]
     else:
@@ -58,11 +60,17 @@ def check_history(case):
                     j = dims if isinstance(dims, int) else dims[i]
                     acc[j][0].append(X[i].tolist())
                     acc[j][1].append(float(y[i]))
+                if case.get("reuse_buffers"):  # the caller recycles its arrays: the model must hold what it was given
+                    X[...] = 0.123
+                    y[...] = -9.75
             else:
                 Y = np.array(op[2], float).reshape(-1, m)
                 model.add_sample(X, Y)
                 acc[0].extend(X.tolist())
                 acc[1].extend(Y.tolist())
+                if case.get("reuse_buffers"):
+                    X[...] = 0.123
+                    Y[...] = -9.75
             adds_since_update += 1
         elif k == "clear":
             model.clear_data()
@@ -275,7 +283,8 @@ def st_history(draw, kind=None):
             if pool and draw(st.booleans()):
                 pts[0] = list(pool[draw(st.integers(0, len(pool) - 1))])  # predict at a training input
             ops.append(["predict", pts])
-    return {"kind": kind, "d": d, "m": m, "noise": draw(st_noise(kind, m)), "hyp": draw(st_hyp(kind, d, m)), "ops": ops}
+    return {"kind": kind, "d": d, "m": m, "noise": draw(st_noise(kind, m)), "hyp": draw(st_hyp(kind, d, m)), "ops": ops,
+            "reuse_buffers": draw(st.booleans())}
 
 
 @st.composite
